@@ -1,8 +1,8 @@
 (* C16 — fractional time shifting is exact Lagrange interpolation (statements only).
-   PARTIAL: textbook-weight identity proved for orders 1 and 3 for every fraction; for the other orders up to 111 the
-   exact-rational model is evaluated against the textbook product at 2*halfp+1 fractions per order (supporting test). *)
+   The textbook-weight identity is proved for every odd order 1..111 (halfp 1..56), every tap and every real fraction
+   0 <= d < 1: polynomial identities with integer coefficients decided per order by computation and lifted to the reals. *)
 From Coq Require Import ZArith List Reals.
-From SK Require Import Arith Lagrange.
+From SK Require Import Arith Lagrange LagrangeQ LagrangeAll.
 Import ListNotations.
 Theorem C16_integer_shift_is_displacement : forall h k, (1 <= h)%Z -> (0 <= k < 2 * h)%Z ->
   tap RA h 0%R k = if (k =? h - 1)%Z then 1%R else 0%R.
@@ -12,5 +12,10 @@ Proof. exact taps_linear. Qed.
 Theorem C16_order3_textbook : forall d, (0 <= d < 1)%R ->
   taps RA 2 d = map (fun k => lagrange_weight [(-1)%R; 0%R; 1%R; 2%R] k d) [0; 1; 2; 3]%nat.
 Proof. exact taps_cubic_textbook. Qed.
+Theorem C16_taps_are_textbook_lagrange : forall (h : Z) (k : nat) (d : R),
+  (1 <= h <= 56)%Z -> (k < Z.to_nat (2 * h))%nat -> (0 <= d < 1)%R ->
+  tap RA h d (Z.of_nat k) = lagrange_weight (nodesR h) k d.
+Proof. exact taps_are_textbook_lagrange. Qed.
 Print Assumptions C16_integer_shift_is_displacement.
+Print Assumptions C16_taps_are_textbook_lagrange.
 Print Assumptions C16_order3_textbook.
